@@ -258,7 +258,7 @@ def scratch_dir():
 def native_replay(contract, clause_name, clause):
     """run the contract's replay builder against the real code (this interpreter imports pygom
     from /repo/src)"""
-    if contract.replay is None or clause.get('model') is None:
+    if contract.replay is None or clause.get('model') is None or os.environ.get('PYVC_NO_REPLAY'):
         return None
     try:
         return contract.replay(clause_name, clause['model'])
@@ -412,6 +412,15 @@ def check(pid, tier, seed, args):
             standin, err = run_standin_guarded(mod, tier, seed)
             if err:
                 errors.append(('standin', err))
+            elif tier == 'quick' and (proof_lost or unreplayed) and not [f for f in standin.get('failures', [])
+                                                                         if not any(x.get('standin_case') == f.get('key') for x in kfs)]:
+                # an obligation was refuted but neither its replay nor the quick-size stand-in has a failing input: before the run
+                # settles for PROOF-LOST / no-failing-input-found, look once with the thorough-size corpus (escalation)
+                os.environ['PYVC_STANDIN_WALL_S'] = os.environ.get('PYVC_STANDIN_WALL_S', '1200')
+                big, err2 = run_standin_guarded(mod, 'thorough', seed)
+                if big is not None and big.get('failures'):
+                    big['rule'] = (big.get('rule') or '') + ' [thorough-size corpus, used because an obligation was refuted without a failing input]'
+                    standin = big
         if standin:
             seen_keys = set()
             for k, fail in enumerate(standin.get('failures', [])):
